@@ -43,6 +43,9 @@ KINDS = ['noise_tone', 'int_ramp', 'complex']
 KINDS_T = KINDS + ['float32', 'complex64']
 LONG_C = 6             # thorough: streams of >= LONG_C windows are run for the quick box of configurations only
 ALLPOS_C = 4           # thorough: impulse trains at ALL M*P offsets for streams of <= ALLPOS_C windows, 3 offsets beyond
+CHECK_BUFFER_REUSE = True   # the same sample sequence fed through one reused caller buffer (values at call time are
+                            # the stream's values; the property does not let the result depend on what the caller
+                            # does with its array afterwards)
 AB_REAL = [(1.0, 1.0), (2.5, -0.75), (-1.0, 1000.0)]
 AB_CPLX = [(1.0, 1.0), (1j, 2.0 - 1.0j), (-0.5 + 0.25j, 1000.0)]
 
@@ -180,12 +183,18 @@ def case_window(c):
 
 
 # ------------------------------------------------------------------ streams
-def _run_history(fb, x, z, ops, M, N):
-    """Execute ops on the real object.  Returns list of (op, output-or-None, state_key_fields)."""
+def _run_history(fb, x, z, ops, M, N, buf=None):
+    """Execute ops on the real object.  Returns list of (op, output-or-None, state_key_fields).
+    With `buf`, the caller streams through ONE reused buffer: each chunk is written into buf[:len] and passed."""
     out = []
     for op in ops:
         if op[0] == 'c':
-            y = fb.channelize(x[op[1] * N:op[2] * N], cache=True)
+            chunk = x[op[1] * N:op[2] * N]
+            if buf is not None:
+                view = buf[:len(chunk)]
+                view[:] = chunk
+                chunk = view
+            y = fb.channelize(chunk, cache=True)
         elif op[0] == 'n':
             y = fb.channelize(z, cache=False)
         else:
@@ -289,10 +298,10 @@ def case_stream(c):
         V('oneshot_shape', 'probe call returned shape %s expected %s' % (Z0.shape, Zref.shape))
         return res
 
-    def check_history(ops, failure, label):
+    def check_history(ops, failure, label, reuse=False):
         fb = _new(M, P, win)
         try:
-            hist = _run_history(fb, x, z, ops, M, N)
+            hist = _run_history(fb, x, z, ops, M, N, buf=np.empty_like(x) if reuse else None)
         except Exception as e:
             V('raised', '%s: %s: %s' % (label, type(e).__name__, e))
             res['n'] += 1
@@ -327,6 +336,9 @@ def case_stream(c):
         n_comp += 1
         base = _chunks(comp)
         check_history(base, 'chunk_mismatch', 'stream cut into chunks of %s windows' % (comp,))
+        if CHECK_BUFFER_REUSE and len(comp) >= 2:
+            check_history(base, 'buffer_reuse', 'stream cut into chunks of %s windows, every chunk passed through one '
+                          'reused caller buffer' % (comp,), reuse=True)
         # non-trivial: >= 2 chunks and, at some seam, the spectra that need cached samples are not all zero
         if len(comp) >= 2:
             seam_rows = []
@@ -588,12 +600,13 @@ def run(ctx):
                      'one-shot vs definition: |error| <= %g * max|x|; implementation-vs-implementation identities are '
                      'bit for bit with that tolerance against the definition as fallback (counter tolerance_fallback)' % TOL,
                      'a call on W whole windows returns (W-1)*num_taps spectra (the last window is the streaming tail)',
-                     'the caller does not mutate a chunk after passing it (buffer ownership is not part of the property)'],
+                     'chunks are slices of the stream array, or (buffer_reuse histories) one caller buffer refilled '
+                     'before each call; the caller never writes to a chunk DURING a call'],
         coverage_extra={'bounds': {'num_taps': TAPS, 'num_branches': BRANCHES_T if thorough else BRANCHES_Q,
                                    'windows': WINDOWS_T if thorough else WINDOWS_Q, 'big_configs': big,
                                    'stream_windows': cs, 'kinds': kinds + ['impulse'],
                                    'impulse_positions': ('all M*P for c<=%d, else 3' % ALLPOS_C) if thorough else 3,
                                    'long_streams': 'c>=%d only for the quick box of (M,P,window)' % LONG_C,
                                    'pair_stream_windows': cpairs, 'pair_mps': len(mps)},
-                        'alphabet': ['channelize(chunk, cache=True)', 'channelize(foreign, cache=False)',
+                        'alphabet': ['channelize(chunk, cache=True)', 'channelize(chunk via reused buffer, cache=True)', 'channelize(foreign, cache=False)',
                                      '_reset_cache()', 'construct second object']})
